@@ -174,11 +174,13 @@ class State:
         self.excs = []  # pending exceptional outcomes [(exc_name, State)]
         self.trace = []  # branch decisions, for labels
         self.tagmap = {}  # z3 ast id of a fact in pc -> tag ("inv:<label>", "lemma:<k>", "axiom:reach", ...)
+        self.binders = []  # z3 variables bound by an enclosing comprehension / map over a symbolic-length sequence
 
     def copy(self):
         s = State(dict(self.env), list(self.pc), list(self.guards), self.mod, self.cls)
         s.trace = list(self.trace)
         s.tagmap = dict(self.tagmap)
+        s.binders = list(self.binders)
         return s
 
     def assume(self, fact, tag=None):
